@@ -27,3 +27,17 @@ MUTANTS = [
   "edits": [(P, "        p = p1.next();\n        if p.is_none() || !Self::is_simple_char(p.unwrap()) {\n            return true;\n        }\n        if p != p2.next() {\n            return false;\n        }\n\n        p = p1.next();", "        p = p1.next();\n        match p {\n            Some(c) if Self::is_simple_char(c) => {}\n            _ => return true,\n        }\n        if p != p2.next() {\n            return false;\n        }\n\n        p = p1.next();")]},
  {"id": "benign-rename-cursor", "kind": "benign", "edits": [(D, "re:\\bidx\\b", "pos", 16)]},
 ]
+
+from selfcheck.c02 import MUTANTS as _C02  # noqa: E402
+from selfcheck.c01 import MUTANTS as _C01  # noqa: E402
+from selfcheck.c08 import MUTANTS as _C08  # noqa: E402
+MUTANTS.append(dict(next(m for m in _C02 if m["id"] == "benign-name-split-extracted-into-helper"), id="benign-dewey-split-extracted-into-helper"))
+MUTANTS.append(dict(next(m for m in _C01 if m["id"] == "benign-digit-run-extracted-into-helper"), id="benign-digit-run-extracted-into-helper"))
+MUTANTS.append(dict(next(m for m in _C08 if m["id"] == "benign-line-split-extracted-into-fallible-helper"), id="benign-summary-line-split-extracted-into-helper"))
+from selfcheck.c03 import MUTANTS as _C03  # noqa: E402
+MUTANTS.append(dict(next(m for m in _C03 if m["id"] == "benign-component-access-extracted-into-helper"), id="benign-unchecked-index-helper-guarded-by-callers"))
+# the same helper, but one call site uses an index that is NOT drawn from a range bounded by the length: must be reported
+MUTANTS.append({"id": "unchecked-index-helper-misused", "kind": "break",
+                "edits": _C03[[m["id"] for m in _C03].index("benign-component-access-extracted-into-helper")]["edits"] + [
+                    ("src/dewey.rs", "    let llen = lhs.version.len();\n    let rlen = rhs.version.len();\n", "    let llen = lhs.version.len();\n    let rlen = rhs.version.len();\n    if component(lhs, rlen) == i64::MIN {\n        return false;\n    }\n")],
+                "expect": ["PANIC@dewey::component"]})
